@@ -9,10 +9,13 @@
    [current] / [icurrent] = the code in /repo (HEAD, after the `fix:` commits cdbba24 and a0cd6c8 this
    property led to, and the repair of the loop over file_dep in get_status, [fixC] of Model/Status.v);
    [ilegacy] = _get_task_args before them, [before_fixC] = get_status before the third one, kept for the
-   `_legacy_refuted` statements.  [md5], [size_of], the set-iteration oracles are arbitrary. *)
+   `_legacy_refuted` statements.  [md5], [size_of], the set-iteration oracles are arbitrary.
+   Model/Kwargs.v: BaseAction._prepare_kwargs in full -- action declared as (callable, args, kwargs), callable
+   with named parameters and/or **kwargs, the `kwargs` dict an OBJECT that several actions / tasks / runs of one
+   process may share ([heap]); section "the declaration of the action" below. *)
 From DoitV Require Import Base Dispatch Runner DispatchP DispatchInv RunnerP.
 From DoitV Require Parallel ParallelP.
-From DoitV Require Import Status History StatusP HistoryP Inputs InputsP.
+From DoitV Require Import Status History StatusP HistoryP Inputs InputsP Kwargs KwargsP.
 Open Scope Z_scope.
 
 (* ------------------------------------------------------------------ changed *)
@@ -188,6 +191,99 @@ Theorem C10_executed_kwargs : forall md5 size_of v iv tab fails x t ch opts,
     Some (prepare_kwargs (s_defs (x_s x) t) ch opts (i_params (tab t))).
 Proof. exact args_ok. Qed.
 Print Assumptions C10_executed_kwargs.
+
+(* ------------------------------------------------------------------ the declaration of the action *)
+(* Model/Kwargs.v: the python-action is declared as (callable, args, kwargs); [kw0] is the content of the
+   declared dict, [bound a] the parameters taken by the positional `args`, [opts] = task.options (its keys
+   are those of a dict: NoDup).  Key by key, what the callable is called with: *)
+Theorem C10_kwargs_key_by_key : forall kw0 a df ch opts k, NoDup (map fst opts) ->
+  dget (prepare_in kw0 a df ch opts) k =
+    let after_meta := if meta_in a k then Some (meta_value df ch k) else dget kw0 k in
+    match oget opts k with
+    | None => after_meta
+    | Some x =>
+        if mem k (f_params (a_fun a))
+        then (if negb (mem k (bound a)) then Some (KOpt x) else after_meta)
+        else if f_varkw (a_fun a) && negb (dhas kw0 k) then Some (KOpt x) else dget kw0 k
+    end.
+Proof. exact prepare_in_get. Qed.
+Print Assumptions C10_kwargs_key_by_key.
+
+(* on a bare callable with named parameters this is Inputs.prepare_kwargs, the function of the run interpreter
+   (C10_executed_kwargs) *)
+Theorem C10_kwargs_plain_agrees : forall df ch opts params k x, NoDup (map fst opts) ->
+  In (k, x) (prepare_kwargs df ch opts params) <-> dget (prepare_in [] (plain params) df ch opts) k = Some x.
+Proof. exact plain_agrees. Qed.
+Print Assumptions C10_kwargs_plain_agrees.
+
+(* THE STATEMENT FOR SHARED DICT OBJECTS.  Any sequence [cs] of action executions in one process (several
+   actions of a task, several tasks, several runs) over any heap [h] of declared dict objects, shared in any
+   way: the i-th execution receives
+   - under the name of every entry of ITS task's options (getargs values as read by _get_task_args at that
+     moment: C10_getargs_latest) that value, when the callable has a parameter of that name not taken by a
+     positional argument, or has **kwargs and the dict was not DECLARED with that name;
+   - its task's current targets / file_dep / dep_changed under targets / dependencies / changed when the
+     callable has that parameter (unless an option of that name shadows it, C10_meta_shadowed_by_option);
+   - and nothing else than that and what the dict was declared with;
+   and every dict object is as declared afterwards. *)
+Theorem C10_kwargs_shared_getargs : forall cs h i c k x,
+  nth_error cs i = Some c -> NoDup (map fst (c_opts c)) ->
+  oget (c_opts c) k = Some x -> ~ In k (bound (c_act c)) ->
+  (In k (f_params (a_fun (c_act c))) \/ (f_varkw (a_fun (c_act c)) = true /\ dget (h (a_kw (c_act c))) k = None)) ->
+  exists kw, nth_error (fst (exec_calls true h cs)) i = Some kw /\ dget kw k = Some (KOpt x).
+Proof. exact seq_getargs. Qed.
+Print Assumptions C10_kwargs_shared_getargs.
+Theorem C10_kwargs_shared_meta : forall cs h i c k,
+  nth_error cs i = Some c -> NoDup (map fst (c_opts c)) ->
+  In k meta_keys -> In k (f_params (a_fun (c_act c))) -> ~ In k (bound (c_act c)) -> oget (c_opts c) k = None ->
+  exists kw, nth_error (fst (exec_calls true h cs)) i = Some kw /\ dget kw k = Some (meta_value (c_def c) (c_changed c) k).
+Proof. exact seq_meta. Qed.
+Print Assumptions C10_kwargs_shared_meta.
+Theorem C10_kwargs_shared_nothing_else : forall cs h i c kw k v,
+  nth_error cs i = Some c -> NoDup (map fst (c_opts c)) ->
+  nth_error (fst (exec_calls true h cs)) i = Some kw -> dget kw k = Some v ->
+  dget (h (a_kw (c_act c))) k = Some v \/
+  (In k meta_keys /\ In k (f_params (a_fun (c_act c))) /\ v = meta_value (c_def c) (c_changed c) k) \/
+  (exists x, oget (c_opts c) k = Some x /\ v = KOpt x).
+Proof. exact seq_nothing_else. Qed.
+Print Assumptions C10_kwargs_shared_nothing_else.
+Theorem C10_kwargs_declared_dicts_untouched : forall cs h, exec_calls true h cs = (map (call_kw h) cs, h).
+Proof. exact exec_calls_copy. Qed.
+Print Assumptions C10_kwargs_declared_dicts_untouched.
+
+(* the function WITHOUT line 61 (`kwargs = kwargs.copy()`), [copy] = false: two consumers whose actions
+   `def consume( **opts)` are declared with the same dict {mode: 7}; each has a getargs entry named a3, the first
+   from a source that saved 5, the second from one that saved 6: the second receives 5 -- the value injected for
+   the first execution stayed in the shared dict and `key not in kwargs` (line 95) is false.  (With the copy: 6.) *)
+Definition varkw_act : pyact := {| a_fun := {| f_params := []; f_varkw := true |}; a_npos := 0; a_kw := 0%N |}.
+Definition declared_heap : heap := fun _ => [(9%N, KOpt (ASingle (SVal (Some 7%N))))].
+Definition no_deps : tdef := {| file_dep := []; targets := []; uptodate := []; act_values := []; act_result := None |}.
+Definition call_with (x : N) : call :=
+  {| c_act := varkw_act; c_def := no_deps; c_changed := []; c_opts := [(3%N, ASingle (SVal (Some x)))] |}.
+Theorem C10_kwargs_nocopy_refuted :
+  exists (h : heap) (c1 c2 : call) (k : N) (x1 x2 : aval),
+    x1 <> x2 /\ oget (c_opts c2) k = Some x2 /\ NoDup (map fst (c_opts c2)) /\ ~ In k (bound (c_act c2)) /\
+    f_varkw (a_fun (c_act c2)) = true /\ dget (h (a_kw (c_act c2))) k = None /\
+    (exists kw, nth_error (fst (exec_calls false h [c1; c2])) 1 = Some kw /\ dget kw k = Some (KOpt x1)) /\
+    (exists kw, nth_error (fst (exec_calls true h [c1; c2])) 1 = Some kw /\ dget kw k = Some (KOpt x2)).
+Proof.
+  exists declared_heap, (call_with 5), (call_with 6), 3%N, (ASingle (SVal (Some 5%N))), (ASingle (SVal (Some 6%N))).
+  split; [discriminate|]. split; [reflexivity|]. split; [repeat constructor; intros []|]. split; [intros []|].
+  split; [reflexivity|]. split; [reflexivity|]. split; eexists; split; reflexivity.
+Qed.
+Print Assumptions C10_kwargs_nocopy_refuted.
+(* non-vacuity of C10_kwargs_shared_*: a callable `def f(x, dependencies, a3, **kw)` called with one positional
+   argument, declared dict {mode: 7}, options {a3: 5, a4: 6}, shared with the **kwargs-only action above *)
+Definition mixed_act : pyact := {| a_fun := {| f_params := [8; arg_dependencies; 3]%N; f_varkw := true |}; a_npos := 1; a_kw := 0%N |}.
+Example C10_kwargs_nonvacuous :
+  let c := {| c_act := mixed_act; c_def := dA; c_changed := [1%N];
+              c_opts := [(3%N, ASingle (SVal (Some 5%N))); (4%N, ASingle (SVal (Some 6%N)))] |} in
+  exec_calls true declared_heap [call_with 5; c; call_with 6] =
+    ([ [(9%N, KOpt (ASingle (SVal (Some 7%N)))); (3%N, KOpt (ASingle (SVal (Some 5%N))))];
+       [(9%N, KOpt (ASingle (SVal (Some 7%N)))); (arg_dependencies, KFiles [0; 1]%N);
+        (3%N, KOpt (ASingle (SVal (Some 5%N)))); (4%N, KOpt (ASingle (SVal (Some 6%N))))];
+       [(9%N, KOpt (ASingle (SVal (Some 7%N)))); (3%N, KOpt (ASingle (SVal (Some 6%N))))] ], declared_heap).
+Proof. intros c. rewrite exec_calls_copy. reflexivity. Qed.
 
 (* ------------------------------------------------------------------ getargs *)
 (* the invariant behind it, for EVERY history (no freshness hypothesis) and both code versions:
